@@ -61,6 +61,12 @@ func chainOf(p any) (names []string, fp any, err error) {
 			name += "(" + strField(v, "Op") + ")"
 		case "UnwrapPlanner":
 			name += "(" + strField(v, "Label") + ")"
+		case "ParserPlanner":
+			name += "(" + strField(v, "Op") + ")"
+		case "PlannerDrop":
+			name += "(" + strings.Join(v.FieldByName("Labels").Interface().([]string), ",") + ")"
+		case "QuantilePlanner":
+			name += "(" + strconv.FormatFloat(v.FieldByName("Param").Float(), 'g', -1, 64) + ")"
 		}
 		names = append([]string{name}, names...)
 		next := fieldIface(v, "Main")
